@@ -233,6 +233,48 @@ def far_switch(rep, prop, F, f, scalar, kind, site0, q, q_small_when, thr, key, 
     return n
 
 
+def half_turn(rep, prop):
+    """R-JET.halfturn: SO3Base::log at the exact half turn - quaternion (v, 0), |v| = 1, i.e. half-angle th = pi/2 with every
+    comparison decided by exact substitution - returns +-pi * v (a tangent of norm pi), for both signs of the (zero) scalar part."""
+    F = FX.get("SO3")
+    f = next((g for g in F.functions if g["kind"] == "inst" and g.get("cls") == "manif::SO3Base" and g["short"] == "log"
+              and "Map" not in str(g.get("clsargs")) and "double" in str(g.get("clsargs")) and g.get("body") is not None), None)
+    if f is None:
+        rep.broke("anchor vanished: SO3Base::log")
+        return 0
+    n = 0
+    for wsign in (1, -1):
+        site = "SO3Base::log:half-turn[w=%s0]" % ("+" if wsign > 0 else "-")
+        try:
+            je = J.JetEval(F, f, J.World(False, {}, at=sp.pi / 2), make_seeds(f, wsign))
+            ret = je.run()
+        except (J.Unknown, J.NeedSign) as e:
+            rep.broke("R-JET.halfturn cannot evaluate %s: %s" % (site, e))
+            continue
+        exprs = []
+
+        def collect(x):
+            if isinstance(x, sp.Expr):
+                exprs.append(x)
+            elif isinstance(x, (tuple, list)):
+                for y in x:
+                    collect(y)
+        collect(ret)
+        if len(exprs) != 1:
+            rep.broke("R-JET.halfturn: unexpected shape of the value returned by SO3Base::log")
+            continue
+        e = exprs[0].subs(J.TH, sp.pi / 2).replace(sp.Function("atan2"), lambda y, x: sp.atan2(y, x))
+        cpart, ncpart = e.args_cnc()
+        coef = sp.simplify(sp.Mul(*cpart))
+        n += 1
+        ok = len(ncpart) == 1 and sp.simplify(coef ** 2 - sp.pi ** 2) == 0      # +pi*v and -pi*v are the same half turn
+        rep.obligation(ok, lambda site=site, coef=coef, e=e: C.Finding(
+            prop, "R-JET.halfturn", site,
+            "at the exact half turn (unit quaternion with scalar part 0) log returns %s instead of +-pi * v: exp(log X) is not X" % str(e)[:120],
+            f["file"], f["line"]))
+    return n
+
+
 def analyse_function(rep, prop, F, f, scalar, kind):
     """Returns number of compared observables."""
     site0 = "%s::%s" % ((f.get("cls") or "").replace("manif::", ""), f["short"])
